@@ -86,6 +86,12 @@ func (m MetavarMatcher) Match(got reflect.Value, d data.Data, r Region) (data.Da
 		return d, false
 	}
 
+	// A metavariable stands for some code. An optional node that is absent
+	// (for example, the label of a bare "break") is not a match.
+	if k := got.Kind(); (k == reflect.Ptr || k == reflect.Interface) && got.IsNil() {
+		return d, false
+	}
+
 	key := metavarKey(m.Name)
 
 	var md metavarData
